@@ -991,12 +991,20 @@ class Interp:
         c = self.contract
         if c is None or ordinal not in c.invariants:
             self.oos(f'loop #{ordinal} without invariant', s)
-        rn = getattr(self.p, 'renames', None)
-        if rn:
-            from .renames import rename_clause
-            dec = c.decreases.get(ordinal)
-            return ordinal, [rename_clause(x, rn) for x in c.invariants[ordinal]], rename_clause(dec, rn) if dec else dec
-        return ordinal, c.invariants[ordinal], c.decreases.get(ordinal)
+        from .renames import baseline_locals, names_in, rename_clause
+        rn = getattr(self.p, 'renames', None) or {}
+        inv = [rename_clause(x, rn) for x in c.invariants[ordinal]]
+        dec = c.decreases.get(ordinal)
+        dec = rename_clause(dec, rn) if dec else dec
+        # a clause about a local of the baseline source that the current source does not have at the loop head (it was removed, or
+        # is now assigned inside the loop): the clause is dropped -- a weaker invariant, the proof may then stop going through
+        # (undecided), it cannot go through wrongly
+        gone = {n for n in (baseline_locals(c.key) - set(rn)) | set(rn.values()) if n not in self.env}
+        if gone:
+            inv = [x for x in inv if not (names_in([x]) & gone)]
+            if dec and names_in([dec]) & gone:
+                dec = None
+        return ordinal, inv, dec
 
     def assigned_names(self, stmts) -> set[str]:
         out = set()
